@@ -3,8 +3,8 @@ from plib import *
 from props.common import LineRunner
 from props.pcommon import *
 
-LEAN_TARGETS = ["Plonk.Props.C01", "Plonk.Props.C01Complete"]
-EXTRA_AUDITS = ['C01Complete']
+LEAN_TARGETS = ["Plonk.Props.C01", "Plonk.Props.C01Complete", "Plonk.Props.ProverTie"]
+EXTRA_AUDITS = ['C01Complete', "ProverTie"]
 ASSUMPTIONS = ["pairing decided in the trapdoor view; commitments of the model prover are [p(x)]g (C20 commit_eval)",
                "degenerate blinders (e.g. all-zero RNG output) are excluded, as the property allows"]
 TRUSTED = ["dusk-bls12_381 / merlin re-implemented in the model and compared",
